@@ -1,5 +1,6 @@
 import QipVerif.Lemmas.SpinChainExp
 import QipVerif.Lemmas.ComposeTop
+import QipVerif.Lemmas.ComposeSched
 /-!
 # C06 — noise-free spin-chain pulse compilation reproduces the circuit exactly
 
@@ -522,5 +523,118 @@ example (enc : String × Int → ℕ) (henc : Function.Injective enc) :
   · intro i hi
     simp only [isQ, List.mem_cons, List.not_mem_nil, or_false] at hi
     rcases hi with rfl | rfl | rfl <;> norm_num
+
+/-- **end_to_end_pulses_scheduled_partial.**  `end_to_end_pulses_partial` for the schedule that the MODEL of the pipeline
+itself produces: `modelStarts mode isQ` (`Model/SpinChainSched.lean`, the function `drv_spinchain` runs and the
+correspondence compares with the implementation) — `mode = none`: no scheduling, cumulative start times; `some false` /
+`some true`: `Scheduler("ASAP"/"ALAP")`, i.e. C05/C11's `Sched.pulseStarts` with the commuting-family set and the
+conflict-edge variant regenerated from the source.  The hypotheses about the schedule are gone: that instructions whose
+gates share a qubit do not overlap, that dependencies are respected, that starts are ≥ 0 and that every channel is sorted
+and non-overlapping are PROVED from `C11.timetable_valid_tree` (`modelStarts_facts`, `chain_chanJ`); that the grouping loop
+succeeds is proved (`groupPulses_some`).  What the theorem still quantifies over besides circuit, device, parameters and
+schedule mode: the rational list `isQ` with `is = isQ.map castI` (exact arithmetic), the label numbering `enc`, and the
+answer `perm` of `np.argsort` (any permutation `_schedule` accepts).
+
+Remaining named hypotheses, each with the reason it cannot be dropped:
+* `hpulse` — some instruction carries a pulse (a circuit of IDLE / GLOBALPHASE gates only has no control channel: C14's
+  model of `get_full_coeffs` then raises, `C12.idle_only_counterexample`; the implementation returns the identity by a
+  special case, fixes/C06-1);
+* `hgap : GapsResolved` — on every channel an idle gap is `0` or above the source's `time_tol`
+  (`C12.tolerance_counterexample`: a gap of `2⁻⁴⁰` gets no idle point and the next pulse's coefficient is applied during
+  the gap; in a spin-chain circuit such a gap is the duration of a tiny rotation on the same qubit between two pulses of one
+  channel);
+* `SepAll tol` — distinct grid points of different channels are more than `tol` apart (otherwise `get_full_tlist` drops
+  one of them and the slices no longer align with the pulse windows: C14's `merged_contains` needs it);
+* `hroute`, `hph`, `h2q` as before. -/
+theorem end_to_end_pulses_scheduled_partial (circular pre : Bool) (N : ℕ) (ρ : ℕ → ℝ) (P : Params ℝ)
+    (hP : ParamsOK circular N P) (hroute : RouteStageDen N ρ) (gs out : List Gate) (hg : ∀ g ∈ gs, InClass N g)
+    (hph : ∀ g ∈ gs, phOK g = true) (h2q : pre = false → ∀ g ∈ gs, g.qubits.length ≤ 2)
+    (ht : transpileV tables pre (deviceSpec (chainDev circular)) N gs = .ok out)
+    (U : Matrix (St N) (St N) ℂ) (hU : denG N ρ gs = some U) (phase0 old : ℝ) :
+    ∃ (is : List (Instr ℝ)) (φ : ℝ),
+      compile Real.pi (Ang.eval ρ) N P phase0 out = .ok (is, φ) ∧
+      reportedPhase old φ = phaseSum (Ang.eval ρ) out ∧
+      ∀ (isQ : List (Instr Rat)), is = isQ.map castI → (∀ i ∈ isQ, 0 < i.dur) →
+      ∀ (enc : String × Int → ℕ), Function.Injective enc →
+      ∀ (mode : Option Bool) (st0 : List Rat), modelStarts mode isQ = some st0 →
+      ∀ (perm : List ℕ) (cis : List Concat.Instr) (st : List Rat),
+        Concat.schedule (isQ.map (toC enc)) (schOf mode st0 perm) = .ok (cis, st) →
+        (∃ i ∈ isQ, i.chan.isSome = true) → GapsResolved (cis.zip st) →
+        ∀ (tol : Rat), 0 ≤ tol →
+        ∃ (groups : List (ℕ × List (Rat × Concat.Wave))) (chans : List (List Rat × List Rat)),
+          Concat.groupPulses (cis.zip st) [] = some groups ∧
+          Concat.compileS Gen.concatSrc (isQ.map (toC enc)) (schOf mode st0 perm) =
+            some (.ok (some ((groups.map (·.1)).zip (chans.map some)))) ∧
+          (Grid.SepAll tol (chans.map (·.1)) → ∃ (T : List Rat) (rows : List (List Rat)),
+            (∀ zl : Bool, Grid.fullCoeffsV zl tol (chans.map fun c => Grid.Chan.arr c.1 c.2) = .ok (T, rows)) ∧
+            GateC.phase (reportedPhase old φ) • Grid.ordProdL (Grid.runAnalytically 0
+              ((groups.map (·.1)).map (labelHam circular N enc)) (Grid.slices T rows)) = U) := by
+  obtain ⟨is, φ, ws, h1, h2, _, h4, _, h6⟩ :=
+    end_to_end_exp_partial circular pre N ρ P hP hroute gs out hg hph h2q ht U hU phase0 old
+  refine ⟨is, φ, h1, h4, ?_⟩
+  intro isQ his hpos enc henc mode st0 hst perm cis st hs hpulse hgap tol htol
+  subst his
+  have hnatg := transpile_native_ok circular pre N gs out hg h2q ht
+  have hq := compile_chanQubits circular N ρ P phase0 out hnatg _ φ h1
+  have hnat : ∀ i ∈ isQ, NatInstr i.gate := fun i hi =>
+    compile_natInstr circular N ρ P phase0 out hnatg _ φ h1 (castI i) (List.mem_map.mpr ⟨i, hi, rfl⟩)
+  obtain ⟨hf, groups, chans, hgr, hc, hprod⟩ := pulses_product_sched circular N enc henc tol htol isQ ws h2 hpos hnat
+    (chanOK_of_cast circular N isQ ws h2 hq) mode st0 hst perm cis st hs hpulse hgap
+  refine ⟨groups, chans, hgr, hc, ?_⟩
+  intro hsep
+  obtain ⟨T, rows, hfull, heq⟩ := hprod hsep
+  refine ⟨T, rows, hfull, ?_⟩
+  rw [heq]
+  obtain ⟨hσ, _, hsorted⟩ := schedule_pairs enc isQ _ cis st (fun i hi => (hpos i hi).le) hs
+  rw [schedStarts_schOf enc mode isQ st0 perm hst] at hsorted
+  apply h6 (fun k => ((st0.getD k 0 : ℚ) : ℝ)) _ _ _ (by rw [List.length_map]; exact hσ)
+  · exact (List.pairwise_map.mp hsorted).imp (fun h => by simp only; exact_mod_cast h)
+  · intro i hi
+    obtain ⟨j, hj, rfl⟩ := List.mem_map.mp hi
+    have := hpos j hj
+    show (0 : ℝ) < ((j.dur : ℚ) : ℝ)
+    exact_mod_cast this
+  · intro i j hij hj hsh hns
+    have hj' : j < isQ.length := by simpa using hj
+    have hi' : i < isQ.length := by omega
+    simp only [List.getElem_map] at hsh hns ⊢
+    have := hf.dep i j hij hj' hsh hns
+    show ((st0.getD i 0 : ℚ) : ℝ) + ((isQ[i].dur : ℚ) : ℝ) ≤ ((st0.getD j 0 : ℚ) : ℝ)
+    exact_mod_cast this
+
+-- non-vacuity: the pipeline's schedule of RX(q0), RZ(q1), RX(q0) (ASAP: two in parallel, then the second pulse of channel
+-- sx0 without gap; no scheduling: one after the other), an `argsort` answer that exchanges the two simultaneous starts is
+-- accepted by `_schedule`, and the resolution hypothesis holds (all gaps are 0)
+example (enc : String × Int → ℕ) (henc : Function.Injective enc) :
+    let isQ : List (Instr Rat) := [⟨⟨.RX, [0], [], .pi8 4⟩, some ("sx", 0), 1/4, 1/2⟩,
+      ⟨⟨.RZ, [1], [], .pi8 4⟩, some ("sz", 1), 1/4, 1/2⟩, ⟨⟨.RX, [0], [], .pi8 2⟩, some ("sx", 0), 1/4, 1/4⟩]
+    modelStarts (some false) isQ = some [0, 0, 1/2] ∧
+    modelStarts none isQ = some [0, 1/2, 1] ∧
+    Concat.schedule (isQ.map (toC enc)) (schOf (some false) [0, 0, 1/2] [1, 0, 2]) =
+      .ok ([isQ[1], isQ[0], isQ[2]].map (toC enc), [0, 0, 1/2]) ∧
+    GapsResolved (([isQ[1], isQ[0], isQ[2]].map (toC enc)).zip [0, 0, 1/2]) := by
+  intro isQ
+  have hne : enc ("sz", 1) ≠ enc ("sx", 0) := fun h => by have := henc h; simp at this
+  refine ⟨by decide +kernel, by decide +kernel, ?_, ?_⟩
+  · simp [isQ, schOf, Concat.schedule, Concat.isSortedLE]
+    omega
+  · intro groups hg
+    have : groups = [(enc ("sz", 1), [(0, .scalar (1/2) (1/4))]),
+        (enc ("sx", 0), [(0, .scalar (1/2) (1/4)), (1/2, .scalar (1/4) (1/4))])] := by
+      simp [isQ, Concat.groupPulses, Concat.groupOne, Concat.mkWave, Concat.addPulse, toC, toRI, Compose.RI.toInstr, hne,
+        ] at hg
+      rw [← hg]; simp
+    subst this
+    have ht : Gen.concatSrc.timeTol (([(enc ("sz", 1), [(0, Concat.Wave.scalar (1/2) (1/4))]),
+        (enc ("sx", 0), [(0, .scalar (1/2) (1/4)), (1/2, .scalar (1/4) (1/4))])] :
+        List (ℕ × List (Rat × Concat.Wave))).map (·.2)) = 1/1000000000000 * (3/4) := by
+      simp only [List.map_cons, List.map_nil]
+      decide +kernel
+    intro g hgm
+    rw [ht]
+    simp only [List.mem_cons, List.not_mem_nil, or_false] at hgm
+    rcases hgm with rfl | rfl
+    · exact ⟨Or.inl (by decide +kernel), trivial⟩
+    · exact ⟨Or.inl (by decide +kernel), Or.inl (by decide +kernel), trivial⟩
 
 end QipVerif.C06
